@@ -685,3 +685,59 @@ def _c08_process(tier="quick", seed=0):
 
 _c08_before_process = EXTRA_CHECKS["C08"]
 EXTRA_CHECKS["C08"] = (lambda tier="quick", seed=0: _c08_before_process(tier, seed) + _c08_process(tier, seed))
+
+
+# ---- C16: optional write settings of the databook tables.  `write_units / write_uncertainty / write_assumption = None` means "decide from the
+# data"; the writer resolves each setting once and must then use the resolved value everywhere
+def _replay_tdc_flags():
+    """replay: a transfer table built with its constructor (settings left at None) holding a series with assumption, units and uncertainty
+    is appended to a new tb databook, written and read back"""
+    import logging
+    import warnings
+
+    import numpy as np
+    import atomica as at
+    import atomica.excel as ex
+
+    warnings.filterwarnings("ignore")
+    at.logger.setLevel(logging.ERROR)
+    F = at.ProjectFramework(at.LIBRARY_PATH / "tb_framework.xlsx")
+    D = at.ProjectData.new(F, np.arange(2000, 2003), pops=2, transfers=0)
+    tdc = ex.TimeDependentConnections("mig", "Migration", np.arange(2000, 2003), ["pop_0", "pop_1"], ["pop_0", "pop_1"], "transfer",
+                                      ts={("pop_0", "pop_1"): at.TimeSeries(assumption=0.1, units="Probability (per year)", sigma=0.02)})
+    D.transfers.append(tdc)
+    tdve = [t for t in D.tdve.values() if t.ts][0]
+    tdve.write_units = tdve.write_uncertainty = tdve.write_assumption = None
+    pop0 = list(tdve.ts.keys())[0]
+    tdve.ts[pop0].assumption, tdve.ts[pop0].sigma = 0.3, 0.04
+    pre = dict(framework="tb", table="mig (transfer, settings None)", series=dict(assumption=0.1, units="Probability (per year)", sigma=0.02), tdve=tdve.name)
+    try:
+        D2 = at.ProjectData.from_spreadsheet(D.to_spreadsheet(), F)
+    except Exception as e:  # noqa
+        return dict(verdict="violates", raised="%s: %s" % (type(e).__name__, e), detail="writing / reading the databook raised %s: %s" % (type(e).__name__, e), prestate=pre)
+    ts = [t for t in D2.transfers if t.code_name == "mig"][0].ts[("pop_0", "pop_1")]
+    ts2 = [t for t in D2.tdve.values() if t.name == tdve.name][0].ts[pop0]
+    bad = []
+    if (ts.assumption, ts.sigma) != (0.1, 0.02) or not ts.units:
+        bad.append("the transfer series reads back as assumption=%r units=%r uncertainty=%r" % (ts.assumption, ts.units, ts.sigma))
+    if (ts2.assumption, ts2.sigma) != (0.3, 0.04):
+        bad.append("the data table series reads back as assumption=%r uncertainty=%r" % (ts2.assumption, ts2.sigma))
+    return dict(verdict="violates" if bad else "holds", detail="; ".join(bad) or "assumption, units and uncertainty survive the round trip", prestate=pre)
+
+
+def _c16_write_settings(tier="quick", seed=0):
+    import ast
+
+    from pyvc import source
+
+    out = []
+    for mod in ("excel", "data", "programs"):
+        m = source.load(mod)
+        names = list(m.functions.keys()) + ["%s.%s" % (c, f.name) for c, (node, _) in m.classes.items() for f in node.body if isinstance(f, ast.FunctionDef)]
+        for n in sorted(names):
+            out += flow.resolved_defaults_are_used("%s:%s" % (mod, n))
+    return _attach(out, "resolved-setting-is-used", _replay_tdc_flags)
+
+
+_c16_before_settings = EXTRA_CHECKS["C16"]
+EXTRA_CHECKS["C16"] = (lambda tier="quick", seed=0: _c16_before_settings(tier, seed) + _c16_write_settings(tier, seed))
